@@ -1135,9 +1135,9 @@ def gen_opts(r: random.Random, spec: dict, *, native_fail=False, allow_sm=False)
             return {"version": r.choice([1, 11, 0])}
         if x < 0.7:
             return {"version": r.choice([v for v in (4, 5, 6, 7) if v >= min(minv, 7)] or [7]), "opt": {"fp": True, "ss": None}}
-        if x < 0.8:
+        if x < 0.75:
             return {"version": 2, "ac": True}
-        if x < 0.92 and spec["kind"] == "expr":
+        if x < 0.95 and spec["kind"] == "expr":
             # compiled for the other mode: rejected by the final op sweep, after everything else ran
             return {"version": r.choice([v for v in range(max(minv, 2), 11)]), "mode": "sig" if spec.get("mode") == "app" else "app"}
         return {"version": max(2, minv - 1)}
@@ -1480,6 +1480,9 @@ def _compile_op(r, spec, enabled, sm_run, prev: list | None = None) -> dict:
     nf = "native" in enabled and r.random() < (0.15 if spec["target"] else 0.3)
     allow_sm = sm_run and r.random() < 0.5 and not _has_recursive_abi(spec)
     o = {"op": "compile", "p": spec["id"], "opts": gen_opts(r, spec, native_fail=nf, allow_sm=allow_sm), "obs": bool(spec["target"])}
+    if o["opts"].get("mode") and prev and r.random() < 0.75:
+        # the other mode at a version this program was already compiled at
+        o["opts"]["version"] = r.choice(prev)["opts"].get("version", o["opts"]["version"])
     nv = [sb["fault"]["v"] for sb in spec.get("subs", []) if (sb.get("fault") or {}).get("kind") == "needv"]
     if nv and not nf and r.random() < 0.6:
         # a body needs version v: compile just below it (rejected while that subroutine is being
